@@ -1,0 +1,27 @@
+//go:build verif
+
+package filesystem
+
+import (
+	"github.com/go-git/go-git/v6/plumbing"
+	"github.com/go-git/go-git/v6/plumbing/format/idxfile"
+)
+
+// VerifLazyIndexes returns the LazyIndex values currently published in
+// s.index (after making sure the index is loaded), keyed by pack hash, for
+// the reference-accounting probes of the verification harness (C23).
+// MemoryIndex entries are skipped.
+func (s *ObjectStorage) VerifLazyIndexes() (map[plumbing.Hash]*idxfile.LazyIndex, error) {
+	if err := s.requireIndex(); err != nil {
+		return nil, err
+	}
+	s.muI.RLock()
+	defer s.muI.RUnlock()
+	out := make(map[plumbing.Hash]*idxfile.LazyIndex, len(s.index))
+	for h, idx := range s.index {
+		if li, ok := idx.(*idxfile.LazyIndex); ok {
+			out[h] = li
+		}
+	}
+	return out, nil
+}
